@@ -134,7 +134,9 @@ Fixpoint exec (s : stmt) (so : state * output) {struct s} : state * output :=
   | SMixin params body =>
       let args := map (fun p => (fst p, eval_expr st (snd p))) params in
       let argscope := fold_left (fun f p => f_set f (fst p) (snd p)) args [] in
-      let (st', out') := exec_list body (mkSt [argscope; []] (global st), out) in
+      (* FormalArgs::eval's argument scope; the empty sub_selectors scope between it and the
+         definition scope never holds a variable and is left out *)
+      let (st', out') := exec_list body (mkSt [argscope] (global st), out) in
       (mkSt (locals st) (global st'), out')
   end.
 
